@@ -9,7 +9,7 @@ from .common.httpgen import generate as _gen
 from .common.codec import hx, unhx
 
 PROPERTY = "C10"
-LEAN_MODULES = ["AioProps.C10", "AioProps.C10Run"]
+LEAN_MODULES = ["AioProps.C10", "AioProps.C10Run", "AioProps.C10Body"]
 THEOREMS = [
     "Aio.Http.long_line_rejected",
     "Aio.Http.too_many_headers_rejected",
@@ -23,6 +23,8 @@ THEOREMS = [
     "Aio.Http.feedLoop_retained",
     "Aio.Http.feed_retained",
     "Aio.Http.feedAll_retained",
+    "Aio.Http.payloadFeed_complete_eof",
+    "Aio.Http.error_ends_open_body",
 ]
 RULE = ("(a) limit probes: for each syntactic position (request line, status line, header field, chunk-size line incl. extension, "
         "trailer) a stream whose line at that position has length limit-1, limit, limit+1 (limits drawn 8..200, max_line_size != "
